@@ -5,6 +5,8 @@ go 1.17
 require (
 	github.com/cloudwego/dynamicgo v0.0.0
 	github.com/cloudwego/gopkg v0.0.0-20240731030152-5e0df5ad4e40
+	github.com/jhump/protoreflect v1.8.2
+	google.golang.org/protobuf v1.33.0
 )
 
 require (
@@ -15,12 +17,14 @@ require (
 	github.com/cloudwego/thriftgo v0.3.6 // indirect
 	github.com/davecgh/go-spew v1.1.2-0.20180830191138-d8f796af33cc // indirect
 	github.com/fatih/structtag v1.2.0 // indirect
+	github.com/golang/protobuf v1.5.4 // indirect
 	github.com/iancoleman/strcase v0.2.0 // indirect
 	github.com/klauspost/cpuid/v2 v2.2.4 // indirect
 	github.com/pmezard/go-difflib v1.0.0 // indirect
 	github.com/stretchr/testify v1.9.0 // indirect
 	github.com/twitchyliquid64/golang-asm v0.15.1 // indirect
 	golang.org/x/arch v0.0.0-20210923205945-b76863e36670 // indirect
+	google.golang.org/genproto v0.0.0-20200526211855-cb27e3aa2013 // indirect
 	gopkg.in/yaml.v3 v3.0.1 // indirect
 )
 
